@@ -153,7 +153,7 @@ def gen_case(r, n=None, dims=(1, 1, 2, 2, 3, 4, 5), exact_only=False, spec=None,
     if r.random() < 0.04:
         case["discrete"] = r.choice((1, 2))   # the problem declares discrete parameters (ignored by this solver version)
     if r.random() < 0.06:
-        case["ev_probe"] = r.choice(("inverse", "both", "stored"))    # the solver's evolvent is queried by the caller between the calls
+        case["ev_probe"] = r.choice(("inverse", "both", "stored", "rebound"))    # the solver's evolvent is queried by the caller between the calls
     if r.random() < 0.04:
         case["np_params"] = r.choice(("int64", "int32"))    # the parameters are given as numpy scalars
     if case["lim"] <= 60 and r.random() < 0.05:
@@ -362,6 +362,10 @@ class Run:
                 ev.GetInverseImage(np.array(mid, dtype=np.double))
                 if self.case["ev_probe"] == "both":
                     ev.GetImage(0.61)
+                if self.case["ev_probe"] == "rebound":
+                    # the caller re-applies the SAME box through the public SetBounds (e.g. after editing the problem's bounds and
+                    # deciding to keep them): nothing about the evolvent may change
+                    ev.SetBounds(np.array(self.lower, dtype=np.double), np.array(self.upper, dtype=np.double))
                 if self.case["ev_probe"] == "stored":
                     # ... with the point objects of the record / of the current best trial THEMSELVES (the stored float64 arrays,
                     # not copies): "where on the curve is this trial?" must not disturb what is stored
